@@ -33,6 +33,8 @@ H = {
     "secret_key_scalars_nonzero_n1": dict(crate="zkchannels-crypto", what="SecretKey::new (statements before `let x1`, sliced verbatim): x and every y_i are non-zero for every randomness stream containing up to 3 zero scalars at any positions (N=1)", functions=["ps.SecretKey::new (statements before the public x1: non-zero scalar sampling)"], bound="tuple length N=1; at most 3 zero draws in the stream"),
     "secret_key_scalars_nonzero_n2": dict(crate="zkchannels-crypto", what="same, N=2", functions=["ps.SecretKey::new (statements before the public x1: non-zero scalar sampling)"], bound="tuple length N=2; at most 3 zero draws in the stream"),
     "range_params_sign_each_digit": dict(crate="zkchannels-crypto", what="RangeConstraintParameters::new makes one key pair, signs exactly the digits 0..127 in order with it and publishes that key (KeyPair::new and Signature::new are recording stubs); complete for the fixed u = 128", functions=["range.RangeConstraintParameters::new"]),
+    "secret_key_scalars_own_draws_n2": dict(crate="zkchannels-crypto", what="SecretKey::new (sampling statements, sliced verbatim): x and every y_i are pairwise different draws of the generator (tagged RNG stub), N=2", functions=["ps.SecretKey::new (statements before the public x1: non-zero scalar sampling)"], bound="tuple length N=2"),
+    "secret_key_scalars_own_draws_n3": dict(crate="zkchannels-crypto", what="same, N=3", functions=["ps.SecretKey::new (statements before the public x1: non-zero scalar sampling)"], bound="tuple length N=3"),
     "range_digits_exact": dict(crate="zkchannels-crypto", what="prefix of generate_constraint_commitments (sign test + digit decomposition, sliced verbatim): Err iff value < 0; otherwise 9 digits < 128 with sum d_j*128^j == value; all i64, bit-precise, shape-independent", functions=["range.RangeConstraintBuilder::generate_constraint_commitments (statements before the digit proof builders)"]),
     "g1_codec_validates": dict(crate="zkchannels-crypto", what="G1 element codec: for all 48-byte strings the wire bytes reach bls12_381 G1Affine::from_compressed unchanged, exactly once, no non-validating decoder is reached, and the result is Ok iff that decoder accepts; shorter input is an error", functions=["serde.<G1Affine as SerializeElement>::deserialize"]),
     "g1_codec_short_input": dict(crate="zkchannels-crypto", what="G1 element codec: any input shorter than 48 bytes is an error (no panic) and reaches no decoder", functions=["serde.<G1Affine as SerializeElement>::deserialize"]),
